@@ -1,5 +1,5 @@
 # Calls: builtins, conversions, modular use of callee contracts, inlining of leaf helpers.
-import z3
+import z3, os, re
 from .values import *
 from .gostate import *
 from .gospec import SpecEnv
@@ -158,10 +158,107 @@ class CallsMixin:
             return rcv, ps, rs
         return None
 
+    def callee_writes(self, key):
+        """names of the fields (or 'elems' / '*') the body of the function writes through a pointer, slice or map that is
+        not a plain local: used to check at call sites that the callee's contract declares its frame"""
+        cache = self.__dict__.setdefault('_cw', {})
+        if key in cache:
+            return cache[key]
+        out = set()
+        d = self.funcs.get(key)
+        fresh_locals = set()          # locals that only ever hold objects allocated by the function itself
+        def scan(n):
+            if isinstance(n, list):
+                for x in n: scan(x)
+            elif isinstance(n, dict):
+                if n.get('_') == 'AssignStmt' and len(n['Lhs']) == len(n['Rhs']):
+                    for l, r in zip(n['Lhs'], n['Rhs']):
+                        if l['_'] == 'Ident' and l.get('obj'):
+                            isnew = (r['_'] == 'UnaryExpr' and r.get('Op') == '&' and r['X']['_'] == 'CompositeLit') or \
+                                    (r['_'] == 'CallExpr' and r['Fun'].get('Name') == 'new' and r['Fun'].get('isBuiltin'))
+                            oid = l['obj'].get('id')
+                            if isnew and n.get('Tok') == ':=':
+                                fresh_locals.add(oid)
+                            elif oid in fresh_locals and not isnew:
+                                fresh_locals.discard(oid); fresh_locals.add(('not', oid))
+                for kk, v in n.items():
+                    if kk not in ('obj', 'sel', 'implicit') and isinstance(v, (dict, list)): scan(v)
+        if d is not None and d.get('Body'):
+            scan(d['Body'])
+        def walk(n):
+            if isinstance(n, list):
+                for x in n: walk(x)
+                return
+            if not isinstance(n, dict):
+                return
+            k = n.get('_')
+            targets = []
+            if k == 'AssignStmt': targets = n['Lhs']
+            elif k == 'IncDecStmt': targets = [n['X']]
+            for t in targets:
+                while t['_'] == 'ParenExpr': t = t['X']
+                b = t
+                while b['_'] in ('IndexExpr', 'SelectorExpr', 'StarExpr', 'ParenExpr') and not (b['_'] == 'SelectorExpr' and b.get('sel') is None):
+                    xk = self.tt.kind(b['X']['t']) if b['X'].get('t') is not None else None
+                    if b['_'] == 'SelectorExpr' and xk == 'ptr':
+                        bx = b['X']
+                        if bx['_'] == 'Ident' and bx.get('obj') and bx['obj'].get('id') in fresh_locals and ('not', bx['obj'].get('id')) not in fresh_locals:
+                            break                 # a field of an object this function allocated
+                        out.add(b['Sel']['Name']); break
+                    if b['_'] == 'IndexExpr' and xk in ('slice', 'ptr', 'map'):
+                        # an element of a slice/map held in a field or reached through a pointer; locals' own arrays may alias too
+                        out.add('elems'); break
+                    if b['_'] == 'StarExpr':
+                        out.add('*'); break
+                    b = b['X']
+            if k == 'CallExpr':                      # what the callee's own callees declare
+                k2, _ = self.callee_key_static(n['Fun'])
+                c2 = None
+                if k2:
+                    for pref in ('', 'natives:', 'goroot:'):
+                        c2 = c2 or self.contracts.get(pref + k2) or self.externs.get(pref + k2)
+                if c2 is not None:
+                    for cl in c2.get('assigns'):
+                        for tg in speclang.split_top(cl.text, ','):
+                            tg = tg.strip()
+                            m = re.search(r'\.(\w+)$', tg)
+                            if m: out.add(m.group(1))
+                            elif tg.startswith(('deref(', '*')):
+                                if not any(a['_'] == 'UnaryExpr' and a.get('Op') == '&' and a['X']['_'] == 'Ident' for a in n.get('Args', []) or []):
+                                    out.add('*')          # (the address of one of the function's own variables is not part of its frame)
+                            elif tg.startswith(('elems(', 'arr(')): out.add('elems')
+            for kk, v in n.items():
+                if kk in ('obj', 'sel', 'implicit'): continue
+                if isinstance(v, (dict, list)): walk(v)
+        if d is not None and d.get('Body'):
+            walk(d['Body'])
+        cache[key] = out
+        return out
+
+    def check_frame_declared(self, c, key):
+        w = self.callee_writes(key)
+        if not w or os.environ.get('GVC_SELFTEST_NOFRAME'):
+            return
+        decl = ' '.join(cl.text for cl in c.get('assigns'))
+        missing = []
+        for f in sorted(w):
+            if f == 'elems':
+                ok = 'elems(' in decl or 'arr(' in decl or 'deref(' in decl or bool(c.get('assigns'))
+            elif f == '*':
+                ok = 'deref(' in decl or '*' in decl
+            else:
+                ok = re.search(r'\.%s\b' % re.escape(f), decl) is not None or 'deref(' in decl
+            if not ok:
+                missing.append(f)
+        if missing:
+            raise Unsupported('callee %s writes %s but its contract has no matching assigns clause (frame not declared)' % (key, ', '.join(missing)))
+
     def apply_contract(self, st, c, key, recv, argv, e, assumed):
         line = e.get('line')
         if assumed:
             self.assumed.add(key)
+        else:
+            self.check_frame_declared(c, key)
         sig = self.callee_signature(key, c)
         binds = {}
         rtypes = []
@@ -224,6 +321,12 @@ class CallsMixin:
         env_post.assume_mode = True
         for cl in c.get('ghost'):
             self.ghost_assign(st, env_post, cl)
+            if not assumed:
+                # a function under contract initialises its ghost state with this clause when it is verified; for its
+                # caller the final value is whatever the postconditions say about it
+                m = re.match(r'(\w+)\s*=', cl.text)
+                if m and ('ghostvar', m.group(1)) in st.ghost:
+                    self.havoc_target(st, env_post, ('id', m.group(1)))
         for cl in c.get('ensures'):
             try:
                 st.assume(self.sev_bool(env_post, cl.expr))
@@ -346,6 +449,26 @@ class CallsMixin:
         raise Unsupported('ghost clause %r' % cl.text)
 
     def havoc_target(self, st, env, target):
+        if target[0] == 'call' and target[1] == ('id', 'heap'):    # heap(T.f): field f of every object of (a type named like) T
+            a = target[2][0]
+            if a[0] != 'sel' or a[1][0] != 'id':
+                raise Unsupported('assigns heap(T.f): expected a type name and a field')
+            tshort, fname = a[1][1], a[2]
+            hit = False
+            for tid in range(len(self.tt.t)):
+                if self.tt.kind(tid) != 'struct': continue
+                tn = self.tt.name(tid)
+                base = re.split(r'[./]', tn.split('[')[0])[-1]
+                if base != tshort: continue
+                for f in self.tt.fields(tid):
+                    if f['n'] == fname:
+                        for i, srt in enumerate(self.lay.sorts(f['t'])):
+                            st.heap[(tn, fname, i)] = fresh('hvH_%s' % fname, z3.ArraySort(I, srt))
+                            st.meta['afacts'] = tuple(st.meta.get('afacts', ())) + tuple(self.bound_heap_comp(st, st.heap[(tn, fname, i)], tn, fname, i))
+                        hit = True
+            if not hit:
+                raise Unsupported('assigns heap(%s.%s): no such field in the type table' % (tshort, fname))
+            return
         if target[0] == 'id' and ('ghostvar', target[1]) in st.ghost:
             cur = st.ghost[('ghostvar', target[1])]
             if isinstance(cur, SeqV):
